@@ -141,6 +141,8 @@ def counter_term(t):
        ('cur', cellkey, site) for a plain load; None otherwise."""
     if t is None:
         return None
+    while t[0] == "someof":
+        t = t[1]
     if t[0] == "rmw":
         return ("pre", cell_key(t[1]), t[4], t[2], t[3])
     if t[0] == "aload":
